@@ -51,7 +51,10 @@ def run(repo: Repo, chk: Check, thorough: bool = False) -> None:
         return [e]
     # every value assigned to the page-url variable (other than the index.html constant) is built from constants and
     # quote(page_object.fullName()) only, and ends with .html
-    pu_assigns = [n for n in url.walk() if isinstance(n, ast.Assign) and isinstance(n.targets[0], ast.Name) and n.targets[0].id == 'page_url']
+    # the page-url variable: the local that receives the 'index.html' constant
+    puvar = next((t.id for n in url.walk() if isinstance(n, ast.Assign) and isinstance(n.value, ast.Constant) and n.value.value == 'index.html'
+                  for t in n.targets if isinstance(t, ast.Name)), None)
+    pu_assigns = [n for n in url.walk() if isinstance(n, ast.Assign) and isinstance(n.targets[0], ast.Name) and n.targets[0].id == puvar]
     built = [n.value for n in pu_assigns if not (isinstance(n.value, ast.Constant) and n.value.value == 'index.html')]
     ok = pvar is not None and bool(built)
     for b in built:
@@ -92,7 +95,9 @@ def run(repo: Repo, chk: Check, thorough: bool = False) -> None:
             opens.append((f, c))
     for f, c in opens:
         tgt = norm(c.func.value) if isinstance(c.func, ast.Attribute) else ''
-        ok = 'joinpath(ob.url)' in tgt or 'joinpath(pclass.filename)' in tgt
+        jp = c.func.value if isinstance(c.func, ast.Attribute) and isinstance(c.func.value, ast.Call) and call_name(c.func.value) == 'joinpath' else None
+        arg = jp.args[0] if jp is not None and len(jp.args) == 1 else None
+        ok = 'build_directory' in tgt and isinstance(arg, ast.Attribute) and isinstance(arg.value, ast.Name) and arg.attr in ('url', 'filename')
         chk.ob('R11.1', f'{f.qn} :: opens {tgt[:50]}', ok,
                'page file = build_directory / <url used by links>' if ok else
                'a page is written under a name that is not the url links are built from', repo.loc(f.mod, c))
@@ -262,6 +267,9 @@ def run(repo: Repo, chk: Check, thorough: bool = False) -> None:
             '(links on the same page keep or lose the wrong prefix)'
     chk.ob('R11.5', 'pydoctor.linker.taglink :: strips exactly the page url', ok, detail, tl.loc)
     href = [c for c in calls_in(tl) if any(k.arg == 'href' for k in c.keywords)]
-    ok = bool(href) and all(norm(next(k.value for k in c.keywords if k.arg == 'href')) == 'url' for c in href)
+    urlvars = {t.id for n in tl.walk() if isinstance(n, ast.Assign) and isinstance(n.value, ast.Attribute) and n.value.attr == 'url'
+               for t in n.targets if isinstance(t, ast.Name)}
+    ok = bool(href) and all(isinstance(next(k.value for k in c.keywords if k.arg == 'href'), ast.Name) and
+                            next(k.value for k in c.keywords if k.arg == 'href').id in urlvars for c in href)
     chk.ob('R11.5', 'pydoctor.linker.taglink :: href is the (shortened) object url', ok, 'href=url with url = o.url' if ok else
            'href is not built from Documentable.url', tl.loc)
